@@ -479,4 +479,5 @@ pub fn run_c08(out: &mut Out, tier: &str, seed: u64) {
             }
         }
     }
+    crate::objapi::sign_modes_and_chunks(out, &mut rng);
 }
